@@ -101,14 +101,62 @@ def skeleton(fn: ast.FunctionDef, holes: dict[int, str]) -> str:
     return "\n".join(line.rstrip() for line in ast.unparse(cp).splitlines())
 
 
-def find_method(tree: ast.Module, cls: str, name: str) -> ast.FunctionDef:
+def _bindings(fn: ast.FunctionDef) -> list[str]:
+    """Local names of `fn` in order of first binding: parameters (without `self`), then assignment / loop /
+    comprehension / lambda targets in source order."""
+    seen: list[str] = []
+
+    def add(name: str) -> None:
+        if name != "self" and name not in seen:
+            seen.append(name)
+
+    class V(ast.NodeVisitor):
+        def visit_arg(self, node):  # noqa: N802
+            add(node.arg)
+
+        def visit_Name(self, node):  # noqa: N802
+            if isinstance(node.ctx, ast.Store):
+                add(node.id)
+
+    V().visit(fn)
+    return seen
+
+
+def _rename(fn: ast.FunctionDef, mapping: dict[str, str]) -> ast.FunctionDef:
+    import copy
+
+    cp = copy.deepcopy(fn)
+    for node in ast.walk(cp):
+        if isinstance(node, ast.Name) and node.id in mapping:
+            node.id = mapping[node.id]
+        elif isinstance(node, ast.arg) and node.arg in mapping:
+            node.arg = mapping[node.arg]
+    return cp
+
+
+def find_method(tree: ast.Module, cls: str, name: str, like: list[str] | None = None) -> ast.FunctionDef:
+    """The implementation of `cls.name`.  With `like` (recorded skeletons): locals are renamed, by position of their
+    first binding, to the names used in the first skeleton with the same number of locals — a renamed local
+    variable then changes nothing for the extractor."""
+    fn = None
     for c in tree.body:
         if isinstance(c, ast.ClassDef) and c.name == cls:
             found = [f for f in c.body if isinstance(f, ast.FunctionDef) and f.name == name]
             # `@overload` stubs come first: the implementation is the last definition
             if found:
-                return found[-1]
-    raise Bad(f"{cls}.{name} not found")
+                fn = found[-1]
+    if fn is None:
+        raise Bad(f"{cls}.{name} not found")
+    cur = _bindings(fn)
+    for sk in like or []:
+        ref = _bindings(ast.parse(sk.strip("\n")).body[0])  # type: ignore[arg-type]
+        if len(ref) == len(cur):
+            if ref != cur:
+                # two-step renaming so that a swap of two names cannot collide
+                tmp = {c_: f"__rb{i}" for i, c_ in enumerate(cur)}
+                fn = _rename(_rename(fn, tmp), {f"__rb{i}": r for i, r in enumerate(ref)})
+            break
+    return fn
 
 
 def expect(fn: ast.FunctionDef, holes: dict[int, str], accepted: list[str], what: str) -> int:
